@@ -4,7 +4,7 @@ import contracts.overlap as OV
 import contracts.chunk as CH
 import contracts.standins_overlap as B
 
-PROVED = [OV.get_window_size, CH.chunk_split]
+PROVED = [OV.get_window_size, OV.ow_do_compute_first, OV.ow_do_compute_later, CH.chunk_split]
 
 PROPERTY = Property(
     "C09", "proof",
@@ -12,9 +12,17 @@ PROPERTY = Property(
     standins=[StandIn("OverlapWindowPlugin == whole-run computation over all chunkings (real code)", B.overlap_window, B.overlap_window.harness,
                       budget={"quick": 260, "thorough": 2500})],
     trusted=["pyvc VC generator and value model", "z3 5.1.0 / cvc5 1.4.0"],
-    assumptions=["OverlapWindowPlugin.do_compute / cache_beyond (dict of cached chunks, retry loop) are NOT proved: bounded stand-in",
+    assumptions=["OverlapWindowPlugin.do_compute is verified for one input kind and one output (first call and later calls); the "
+                 "multi-output branch and cache_beyond (retry loop aligning the cached starts) are NOT proved: bounded stand-in",
+                 "assumed at the call sites: Chunk.concatenate of two adjacent chunks spans both (bounded C07 stand-in), "
+                 "super().do_compute returns a well-formed chunk covering exactly the inputs' interval (C08 / C12 contracts), window "
+                 "sizes are non-negative integers",
                  "window-locality of the user's computation is a premise of the property, not checked"],
-    explanation="_get_window_size returns (w, w) for a number and the pair itself, with both parts non-negative, for a pair, anything else "
+    explanation="OverlapWindowPlugin.do_compute, modularly over the Chunk.split contract, for every input chunk, cache and computation "
+                "result: what is sent starts where the previous call stopped sending, ends at the new sent_until where the withheld "
+                "results start (these reach to the end of the input), nothing beyond end - 2*look-ahead - 1 is sent, sent rows end by "
+                "sent_until and withheld rows start at or after it, sending only moves forward, and the input is cached from "
+                "sent_until - 2*look-back - 1 on.  _get_window_size returns (w, w) for a number and the pair itself, with both parts non-negative, for a pair, anything else "
                 "is refused; Chunk.split (used to drop what was sent, to withhold what is not final and to cache inputs) obeys the laws of "
                 "chunking, in particular an early split never moves later than requested.  End to end (bounded): for window-local "
                 "computations the concatenated output over every enumerated chunking equals the whole-run computation, output chunks "
